@@ -114,11 +114,19 @@ def run(rep):
         lets = {s["pat"].get("name"): s for s in body.get("stmts", []) if s["k"] == "Let" and s["pat"].get("k") == "Bind"}
         er = lets.get("expression_raw")
         rep.check(bool(er) and show(er["init"]) == "<T>::ok_or_else(expression, |closure {closure#1}|)?", "RAW=PARSED", "RAW=PARSED/condition-required", er["sp"] if er else v.sp, "expression_raw is the stored condition value (missing => Err)", show(er["init"]) if er else "-")
-        tk = lets.get("tokens")
-        rep.check(bool(tk) and show(peel(tk["init"])["scrut"]) == "Tokeniser::tokenise(expression_raw)" if tk and peel(tk["init"]).get("k") == "Match" else False, "RAW=PARSED", "RAW=PARSED/tokenised-text", tk["sp"] if tk else v.sp,
-                  "the tokens come from expression_raw itself", show(tk["init"])[:60] if tk else "-")
-        ex = [s for s in body.get("stmts", []) if s["k"] == "Let" and s["pat"].get("name") == "expression" and s.get("init") and "parser::parse" in show(s["init"])]
-        rep.check(len(ex) == 1 and show(peel(ex[0]["init"])["scrut"]) == "parser::parse(Deref::deref(tokens))", "RAW=PARSED", "RAW=PARSED/parsed-tokens", ex[0]["sp"] if ex else v.sp, "the expression is parsed from those tokens", "")
+        # the one tokenise call reads expression_raw; the let it initialises is the token vector; the one parse call reads that
+        # vector; the let it initialises is the expression stored in Detection (each failure is an Err, by any spelling)
+        def let_holding(call):
+            hs = [s for s in body.get("stmts", []) if s["k"] == "Let" and s.get("init") is not None and s["pat"].get("k") == "Bind" and any(x is call for x in walk(s["init"]))]
+            return hs[0] if len(hs) == 1 else None
+        tcalls = [x for x in walk(body) if call_is(x, "Tokeniser::tokenise")]
+        tk = let_holding(tcalls[0]) if len(tcalls) == 1 else None
+        rep.check(bool(tk) and bool(er) and q.base_var(tcalls[0]["args"][0]) == er["pat"]["id"], "RAW=PARSED", "RAW=PARSED/tokenised-text", tk["sp"] if tk else v.sp,
+                  "the tokens come from expression_raw itself", show(tk["init"])[:60] if tk else "%d tokenise calls" % len(tcalls))
+        pcalls = [x for x in walk(body) if call_is(x, "parser::parse")]
+        exl = let_holding(pcalls[0]) if len(pcalls) == 1 else None
+        ex = [exl] if exl else []
+        rep.check(bool(exl) and bool(tk) and q.base_var(pcalls[0]["args"][0]) == tk["pat"]["id"], "RAW=PARSED", "RAW=PARSED/parsed-tokens", exl["sp"] if exl else v.sp, "the expression is parsed from those tokens", show(exl["init"])[:60] if exl else "%d parse calls" % len(pcalls))
         fin = body.get("expr")
         okf = False
         det = show(fin)[:160] if fin else "-"
